@@ -1,6 +1,6 @@
 (* C06 -- Generated markup is balanced (partial: see MANIFEST level text).  Property theorems only. *)
-From Rimu Require Import Base Regex RegexParse Str Types Tables Guards State Inline Block
-  Frame FrameBlock FrameInst OptionsLemmas MiscLemmas.
+From Rimu Require Import Base Unicode Regex RegexAnalysis RegexParse Str Types Tables Guards State Inline Block
+  Frame FrameBlock FrameInst OptionsLemmas MiscLemmas MoreLemmas Plain TableFacts.
 
 (* every tag-bearing template in the generated definition tables (quotes, replacements, line blocks,
    delimited blocks, lists) is balanced, br and img being the only void elements *)
@@ -17,6 +17,17 @@ Theorem C06_definitions_fixed : forall n src s html s',
   s_mode s <> 0%Z -> doc_render n src s = Ok (html, s') -> protected s' = protected s.
 Proof. exact doc_render_protected. Qed.
 Print Assumptions C06_definitions_fixed.
+
+Theorem C06_blocks_escape_or_filter :
+  forallb (fun d => truthy (e_specials (d_expand d)) || mem (d_name d) [$"macro-definition"; $"html"]) dblocks_default = true.
+Proof. exact blocks_escape_or_filter. Qed.
+Print Assumptions C06_blocks_escape_or_filter.
+
+Theorem C06_list_wrapped : forall fuel doc n it rd s out nx rd' s',
+  renderList fuel doc n it rd s = Ok ((out, nx, rd'), s') ->
+  exists o body, out = o ++ body ++ li_listClose (it_def it).
+Proof. exact renderList_wrapped. Qed.
+Print Assumptions C06_list_wrapped.
 
 Example C06_ex : template_balanced $"<a href=""x""><b>t</b><br></a>" = true /\ template_balanced $"<em><b></em></b>" = false.
 Proof. vm_compute. split; reflexivity. Qed.
